@@ -863,19 +863,26 @@ def oracle_dp(case, res):
     if case["model"] == "daily" and "frame_days" in res:
         # the daily data object must carry every local calendar day for which a temperature was supplied, once
         # (the classes trim temperature-only days at the two ends of the span; what must not happen is a hole)
+        sup = res["supplied_days"]
+        zz = case["zone"]
+        alld = list(sup) + list(res["frame_days"])
+        span = range(min(alld), max(alld) + 1) if alld else []
+        skipped = any(cz.day_start(d, zz) is None for d in span)
+        # a local day of the span with a number of clock hours other than 23/24/25 (2- or 3-hour shift), tz database
+        multi = any(cz.day_start(d, zz) is not None and cz.day_start(d + 1, zz) is not None
+                    and (cz.day_start(d + 1, zz) - cz.day_start(d, zz)) // 60 not in (23, 24, 25) for d in span)
         have = set(res["frame_days"])
         lost = [d for d in res["supplied_days"] if have and min(have) < d < max(have) and d not in have]
         dup = sorted({d for d in res["frame_days"] if res["frame_days"].count(d) > 1})
         if lost:
-            pre.append(({"call": "DailyReportingData", "broken": "supplied day missing inside the frame", "input": case["input"]},
+            pre.append(({"call": "DailyReportingData", "broken": "supplied day missing inside the frame", "input": case["input"],
+                         "multi_hour_shift_in_span": multi},
                         "%d local days with a supplied temperature, between the first and the last day of the data object's frame, are not rows of it (first: %s) - no "
                         "prediction can come back for them" % (len(lost), cz.dt.date.fromordinal(lost[0]).isoformat())))
         # (readings that start in the middle of a day are outside this check: the classes stamp the partial first day apart)
-        sup = res["supplied_days"]
-        skipped = bool(sup) and any(cz.day_start(d, case["zone"]) is None for d in range(min(sup), max(sup) + 1))
         if dup and not case.get("start_hour"):
             pre.append(({"call": "DailyReportingData", "broken": "local day twice in the frame", "input": case["input"],
-                         "calendar_day_skipped_in_span": skipped},
+                         "calendar_day_skipped_in_span": skipped, "multi_hour_shift_in_span": multi},
                         "local day %s is carried by %d rows of the data object's frame" % (
                             cz.dt.date.fromordinal(dup[0]).isoformat(), res["frame_days"].count(dup[0]))))
     if "predict" in res:
@@ -1314,8 +1321,14 @@ def main():
     run.log("zones: %d, transitions: %d" % (len(plan), sum(len(t) for _, t in plan)))
     MODEL_JSON = fit_hourly()
     run.log("hourly model fitted")
-    hp_cases = witness_cases() + gen_hp_cases(rng, plan, run.n(4, 10**6), not run.quick())
-    dp_cases = gen_dp_cases(rng, plan, run.n(160, 2000)) + gen_dp_edge_cases(rng, run.n(80, 1500))
+    corpus = []
+    cpath = os.path.join(vlib.VERIF, "corpus", "C06.json")
+    if os.path.exists(cpath):
+        corpus = json.load(open(cpath))
+    hp_cases = [c["case"] for c in corpus if c.get("stream") == "hp"] + witness_cases() + gen_hp_cases(
+        rng, plan, run.n(4, 10**6), not run.quick())
+    dp_cases = [c["case"] for c in corpus if c.get("stream") == "dp"] + gen_dp_cases(rng, plan, run.n(160, 2000)) + gen_dp_edge_cases(
+        rng, run.n(80, 1500))
     jobs = [(z, tr, rng.randrange(2**31), run.quick()) for z, tr in plan if tr]
     with get_context("fork").Pool(int(os.environ.get("VERIF_PROCS", "14"))) as pool:
         r_win = pool.map_async(run_windows, jobs, chunksize=1)
